@@ -32,19 +32,22 @@ type instrPred func(ssa.Instruction) bool
 // when from == nil, fn must then be given) and reaches an instruction satisfying target
 // without first executing an instruction satisfying avoid. It returns the first such target.
 func reachAvoid(fn *ssa.Function, from ssa.Instruction, target, avoid instrPred) ssa.Instruction {
-	type pos struct {
-		b *ssa.BasicBlock
-		i int
-	}
-	var start pos
 	if from == nil {
 		if len(fn.Blocks) == 0 {
 			return nil
 		}
-		start = pos{fn.Blocks[0], 0}
-	} else {
-		start = pos{from.Block(), instrIndex(from) + 1}
+		return reachAvoidAt(fn.Blocks[0], 0, target, avoid)
 	}
+	return reachAvoidAt(from.Block(), instrIndex(from)+1, target, avoid)
+}
+
+// reachAvoidAt is reachAvoid starting at instruction i of block b (inclusive).
+func reachAvoidAt(b0 *ssa.BasicBlock, i0 int, target, avoid instrPred) ssa.Instruction {
+	type pos struct {
+		b *ssa.BasicBlock
+		i int
+	}
+	start := pos{b0, i0}
 	seen := map[*ssa.BasicBlock]bool{}
 	var scan func(b *ssa.BasicBlock, i int) ssa.Instruction
 	scan = func(b *ssa.BasicBlock, i int) ssa.Instruction {
